@@ -12,7 +12,6 @@ EXPLANATION = ('Decided (narrow): (1) every GMP string conversion of a term-leve
                'rejects or handles every (state, character class) pair it can reach; (4) numbers are printed by GMP/FastRational::get_str only (no printf of a double). '
                'The digit-counting arithmetic of the scanner and printing of values are value-level and not decided.')
 
-PASS_STATE = {'state', 'zeroes'}     # scanner variables that every pass over the text must start from a constant
 
 
 def run(src, tier, seed):
@@ -75,26 +74,45 @@ def run(src, tier, seed):
     r = res.rule('scanner-pass-state', 'in stringToRational every loop over the text that tests or updates `state` / `zeroes` is preceded, after any earlier loop that changed them, '
                  'by an assignment of a constant to each of them', floor=3)
     top = [s for s in s2r['body']['c'] if isinstance(s, dict)]
+    # pass-local scanner variables, recognised by role (not by name): the state variable is the local compared with integer literals
+    # in the branch conditions of the loops; a pass counter is a local that some loop both increments and resets to 0 in its body
+    loops_all = [st for st in top if st.get('k') == 'loop']
+    cmp_count, incr, reset_in_loop = {}, set(), set()
+    for lp in loops_all:
+        for x in walk(lp['body']):
+            if not isinstance(x, dict):
+                continue
+            if x.get('k') == 'bin' and x.get('op') == '==' and isinstance(see_through(x['r']), dict) and see_through(x['r']).get('k') in ('lit', 'un') and path_of(x['l']):
+                cmp_count[path_of(x['l'])] = cmp_count.get(path_of(x['l']), 0) + 1
+            if x.get('k') == 'un' and x.get('op') in ('++',) and path_of(x['e']):
+                incr.add(path_of(x['e']))
+            aa = as_assign(x)
+            if aa and path_of(aa[0]) and isinstance(see_through(aa[1]), dict) and see_through(aa[1]).get('k') == 'lit' and see_through(aa[1]).get('v') == 0:
+                reset_in_loop.add(path_of(aa[0]))
+    pass_state = {v for v, c in cmp_count.items() if c >= 3} | (incr & reset_in_loop)
+    if not pass_state:
+        raise AnalysisBroken('stringToRational: no scanner state variable recognised')
+    res.extra['scanner_pass_variables'] = sorted(pass_state)
     clean = {}
     for st in top:
-        if st.get('k') == 'decl' and st['n'] in PASS_STATE:
+        if st.get('k') == 'decl' and st['n'] in pass_state:
             i = see_through(st.get('init'))
             clean[st['n']] = isinstance(i, dict) and i.get('k') in ('lit',) or (isinstance(i, dict) and i.get('k') == 'un' and isinstance(see_through(i.get('e')), dict) and see_through(i['e']).get('k') == 'lit')
             continue
         if st.get('k') == 'e':
             aa = as_assign(see_through(st['e'])) if isinstance(see_through(st['e']), dict) else None
-            if aa and path_of(aa[0]) in PASS_STATE:
+            if aa and path_of(aa[0]) in pass_state:
                 rv = see_through(aa[1])
                 clean[path_of(aa[0])] = isinstance(rv, dict) and (rv.get('k') == 'lit' or (rv.get('k') == 'un' and rv.get('op') == '-' and isinstance(see_through(rv['e']), dict) and see_through(rv['e']).get('k') == 'lit'))
             continue
         if st.get('k') == 'loop':
-            used = {x['n'] for x in walk(st) if x.get('k') == 'ref' and x.get('n') in PASS_STATE}
+            used = {x['n'] for x in walk(st) if x.get('k') == 'ref' and x.get('n') in pass_state}
             changed = set()
             for x in walk(st):
                 aa = as_assign(x) if isinstance(x, dict) else None
-                if aa and path_of(aa[0]) in PASS_STATE:
+                if aa and path_of(aa[0]) in pass_state:
                     changed.add(path_of(aa[0]))
-                if isinstance(x, dict) and x.get('k') == 'un' and x.get('op') in ('++', '--') and path_of(x['e']) in PASS_STATE:
+                if isinstance(x, dict) and x.get('k') == 'un' and x.get('op') in ('++', '--') and path_of(x['e']) in pass_state:
                     changed.add(path_of(x['e']))
             # the for-init may assign the variable itself
             for v in sorted(used):
